@@ -304,6 +304,8 @@ def parse_rows(s):
 
 
 def shrink(c):
+    if c.op not in ("distmatrix", "distvariant", "distexplain"):
+        return
     a = list(c.args)
     rows = parse_rows(a[8])
     n, L = len(rows), len(rows[0])
@@ -418,4 +420,17 @@ def gen(rng, tier):
         if rng.random() < 0.2 and n >= 3:
             r = ("0:%d" % max(0, n // 2 - 1), "%d:%d" % (n // 2, n - 1))
         yield Case("detdist", [rows, model, rng.choice(["0", "1"]), gm, ra, alpha, r[0], r[1]], True, "cli-compute-distance")
+    # several alignments in one input: the command keeps one model object for all of them
+    for _ in range(15 if tier == "quick" else 150):
+        n = rng.randint(2, 5)
+        L = rng.randint(4, 24)
+        groups = []
+        for _k in range(rng.randint(2, 4)):
+            comp = rng.choice(["ACGT", "AAAC", "GGCT", "ACGT", "TTTA"])
+            base = [rng.choice(comp) for _ in range(L)]
+            groups.append(",".join("s%d:%s" % (i, "".join(rng.choice(comp) if rng.random() < 0.25 else (rng.choice("-N") if rng.random() < 0.1 else b)
+                                                         for b in base)) for i in range(n)))
+        model = rng.choice(["jc", "k2p", "f81", "f84", "tn93", "pdist"])
+        alpha = rng.choice(["0", "0", "1/2"]) if model != "pdist" else "0"
+        yield Case("detdistmulti", [";;".join(groups), model, rng.choice(["0", "1"]), alpha, rng.choice(["1", "1", "2", "4"])], True, "cli-compute-distance-multi")
 
